@@ -14,11 +14,8 @@ META = {
                'non-ASCII): every read of the tokeniser and of the typed value parsers stays inside the string, the cursor only '
                'moves forward and never past the terminator, string values are built from in-range (pointer,length) pairs, '
                'the name buffer is large enough',
-    'not_decided': 'faithfulness of parsed values (needs strtol/strtod semantics), synonym / wildcard lookup (FindOption: '
-                   'std::string, containers), source order in ParseOptions (getenv, path), echo output, termination of the '
-                   'for(;;) loop when HandleUnknownOption returns without consuming input',
-    'not_under_contract': ['SolverOptionManager::FindOption', 'BasicSolver::ParseOptions', 'SolverOption::wc_match',
-                           'TypedSolverOption<T>::Parse wrapper (calls OptionHelper<T>::Parse then SetValue)'],
+    'not_decided': 'the std::set lookup of FindOption by full name, synonym / wildcard matching beyond the two bounded stand-ins, what strtol / strtod return (library), echo output, the executable-specific variable name (std::filesystem), termination of the for(;;) loop when HandleUnknownOption returns without consuming input',
+    'not_under_contract': ['SolverOptionManager::FindOption (set lookup; its synonym test and wc_match: bounded stand-ins)', 'TypedSolverOption<T>::Parse wrapper (calls OptionHelper<T>::Parse then SetValue)'],
     'assumptions': ['isspace is the "C" locale predicate, total on int (glibc table semantics; strict-C UB for negative '
                     'char values is not modelled)',
                     'strtol/strtod never move the end pointer past the first NUL of their argument'],
